@@ -216,7 +216,7 @@ Definition observe (k : nat) (s : sys) : sexp :=
          SList (map enc_item (s_net s));
          SList (map (fun x => SList [sN (fst (fst x)); snat (snd (fst x))]) (s_open s))].
 
-Definition op (args : list sexp) : sexp :=
+Definition op_limit (limit : N) (args : list sexp) : sexp :=
   match args with
   | [k; SList procs; s0; fuel; SList names; SList classes; SList objects; SList behs; SList sched] =>
       match as_nat k, map_opt as_nat procs, as_N s0, as_nat fuel, map_opt dec_name names,
@@ -228,7 +228,7 @@ Definition op (args : list sexp) : sexp :=
                              (fun c => nth (N.to_nat c - 1) procs (N.to_nat c))
                              (fun c => match alist_get N.eqb c objs with Some ex => ex | None => [] end)
                              (fun _ => beh_of behs)
-                             (fun _ => (placeholder_name, [])) in
+                             (fun _ => (placeholder_name, [])) limit in
               let chk := WireCodec.net_okb (WireCodec.wire_enc fuel) (WireCodec.wire_dec fuel) in
               let fin := fold_left (fun acc a => let s' := step g (fst acc) a in (s', snd acc && chk (s_net s')))
                                    sched (init (setup k names) (fun _ => s0), true) in
@@ -241,4 +241,15 @@ Definition op (args : list sexp) : sexp :=
       | _, _, _, _, _, _ => bad
       end
   | _ => bad
+  end.
+
+(* the case, and optionally DBusMessage._maxMsgLen as a tenth argument (default 2**27) *)
+Definition op (args : list sexp) : sexp :=
+  match args with
+  | [a1; a2; a3; a4; a5; a6; a7; a8; a9; lim] =>
+      match as_N lim with
+      | Some l => op_limit l [a1; a2; a3; a4; a5; a6; a7; a8; a9]
+      | None => bad
+      end
+  | _ => op_limit Message.max_msg_len args
   end.
